@@ -222,6 +222,16 @@ def check_program(text, impl, envs, masks=True, path_prefix=None):
         me = group[i]
         size = len(group)
         v = []
+        # C09, second clause: a block is credited with a bound (here: 'bounded by something the tool cannot evaluate') only if a
+        # comparison of Fee constrains EVERY accepting path through it -- an approved execution that never even reads the Fee
+        # field is constrained by none
+        fee_lines = {n for n, l in enumerate(text.split("\n"), start=1) if re.search(r"\b(txn|gtxn \d+|gtxns) Fee\b", l)}
+        if not (set(trace) & fee_lines):
+            for b in dict.fromkeys(blocks):
+                cx = impl["ctx"].get(str(b)) or {}
+                if cx.get("self:Fee") == "unk":
+                    v.append(("C09", f"block {b}: credited with an (unknown) fee bound although the approved execution {blocks} never reads the Fee field"))
+                    break
         for b in dict.fromkeys(blocks):
             ctxs = impl["ctx"].get(str(b))
             if ctxs is None:
